@@ -55,6 +55,7 @@ def three_way(pid, quirk, cases, proj, what):
 def c16(tier, rng, seed):
     r = three_way('C16', 'q16', P.radio_cases(rng, tier), {'C16'}, 'radio')
     r = merge3(r, three_way('C16', 'q16', P.poisoned_parser_cases(rng, tier, [1, 2, 3, 4, 9, 11, 18]), {'C16'}, 'reused-parser'))
+    r = merge3(r, three_way('C16', 'q16', P.pairwise_cases(rng, tier, [1, 2, 3, 4, 9, 11, 18]), {'C16'}, 'field-pairs'))
     ex = explored('msg', tier)
     if ex: r = merge3(r, three_way('C16', 'q16', ex, {'C16'}, 'explored-msg'))
     return r
